@@ -59,7 +59,7 @@ class C07(G.AutoImpBase):
                     "the list of missing dotted names is an input of the model, taken from the real find_missing_imports (C05)"]
     assumptions = ["snippets come from the fragment on which find_missing_imports is complete (C05); "
                    "namespace dict keys are identifiers"]
-    families = {"D15": fam_d15}
+    families = {"D15": fam_d15, "N1": G.fam_n1, "N2": G.fam_n2, "P1": G.fam_p1, "P2": G.fam_p2}
 
     def oracle(self, case, obs):
         return G.oracle_c07(case, obs)
